@@ -55,6 +55,7 @@ fn main() {
             "sink" => sinks::replay(&sc),
             "c12-stress" => sinks::c12_stress(&sc),
             "holder-window" => holder::replay(&sc),
+            "holder-seq" => holder::replay_seq(&sc),
             "macro" => macros::replay(&sc),
             "queue" | "queue-capacity" | "queue-blocking-emit" | "queue-stats" | "queue-sampler" => queue::replay(&sc),
             _ => json!({"error": format!("unknown scenario kind {}", kind)}),
